@@ -43,4 +43,48 @@ theorem natText_length {n : Nat} (h : n < 1000) : 1 ≤ (natText n).length ∧ (
     · simp
     · simp [h]
 
+/-! evaluation of the digit tests on literals (so that `isDigit` need not be unfolded) -/
+@[simp] theorem isDigit_0 : isDigit '0' = true := by decide
+@[simp] theorem digitVal_0 : digitVal '0' = 0 := by decide
+@[simp] theorem isDigit_1 : isDigit '1' = true := by decide
+@[simp] theorem digitVal_1 : digitVal '1' = 1 := by decide
+@[simp] theorem isDigit_2 : isDigit '2' = true := by decide
+@[simp] theorem digitVal_2 : digitVal '2' = 2 := by decide
+@[simp] theorem isDigit_3 : isDigit '3' = true := by decide
+@[simp] theorem digitVal_3 : digitVal '3' = 3 := by decide
+@[simp] theorem isDigit_4 : isDigit '4' = true := by decide
+@[simp] theorem digitVal_4 : digitVal '4' = 4 := by decide
+@[simp] theorem isDigit_5 : isDigit '5' = true := by decide
+@[simp] theorem digitVal_5 : digitVal '5' = 5 := by decide
+@[simp] theorem isDigit_6 : isDigit '6' = true := by decide
+@[simp] theorem digitVal_6 : digitVal '6' = 6 := by decide
+@[simp] theorem isDigit_7 : isDigit '7' = true := by decide
+@[simp] theorem digitVal_7 : digitVal '7' = 7 := by decide
+@[simp] theorem isDigit_8 : isDigit '8' = true := by decide
+@[simp] theorem digitVal_8 : digitVal '8' = 8 := by decide
+@[simp] theorem isDigit_9 : isDigit '9' = true := by decide
+@[simp] theorem digitVal_9 : digitVal '9' = 9 := by decide
+@[simp] theorem isDigit_at : isDigit '@' = false := by decide
+@[simp] theorem isDigit_H : isDigit 'H' = false := by decide
+@[simp] theorem isDigit_plus : isDigit '+' = false := by decide
+@[simp] theorem isDigit_minus : isDigit '-' = false := by decide
+@[simp] theorem isDigit_colon : isDigit ':' = false := by decide
+@[simp] theorem isDigit_close : isDigit ']' = false := by decide
+@[simp] theorem isDigit_pct : isDigit '%' = false := by decide
+@[simp] theorem isDigit_lp : isDigit '(' = false := by decide
+@[simp] theorem isDigit_rp : isDigit ')' = false := by decide
+@[simp] theorem isDigit_dot : isDigit '.' = false := by decide
+@[simp] theorem isDigit_open : isDigit '[' = false := by decide
+@[simp] theorem isDigit_star : isDigit '*' = false := by decide
+@[simp] theorem digitChar_0 : digitChar 0 = '0' := by decide
+@[simp] theorem digitChar_1 : digitChar 1 = '1' := by decide
+@[simp] theorem digitChar_2 : digitChar 2 = '2' := by decide
+@[simp] theorem digitChar_3 : digitChar 3 = '3' := by decide
+@[simp] theorem digitChar_4 : digitChar 4 = '4' := by decide
+@[simp] theorem digitChar_5 : digitChar 5 = '5' := by decide
+@[simp] theorem digitChar_6 : digitChar 6 = '6' := by decide
+@[simp] theorem digitChar_7 : digitChar 7 = '7' := by decide
+@[simp] theorem digitChar_8 : digitChar 8 = '8' := by decide
+@[simp] theorem digitChar_9 : digitChar 9 = '9' := by decide
+
 end Purr
